@@ -468,6 +468,12 @@ fn determine_delta_compressability(ints: &[i64]) -> DeltaStats {
         previous_delta = delta;
     }
 
+    if ints.len() < 3 {
+        // no second difference exists: not double-delta compressible
+        min_delta_delta = i128::MIN;
+        max_delta_delta = i128::MAX;
+    }
+
     DeltaStats {
         min_delta,
         max_delta,
